@@ -28,12 +28,18 @@ func c16IsCollectionType(t reflect.Type) bool {
 }
 
 // c16FlatOne is the reference rule for one item position: an embedded non-collection object with an id becomes IRI(id).
-func c16FlatOne(it ap.Item) ap.Item {
+func c16FlatOne(it ap.Item) ap.Item { return c16Flat(it, false) }
+
+// c16FlatAddressee is the rule for the members of to/bto/cc/bcc/audience: every addressee with an id becomes IRI(id) - the
+// statement makes no exception for collections here (a followers collection is an ordinary addressee).
+func c16FlatAddressee(it ap.Item) ap.Item { return c16Flat(it, true) }
+
+func c16Flat(it ap.Item, collectionsToo bool) ap.Item {
 	if vocab.IsEmptyItem(it) {
 		return it
 	}
 	sv, ok := vocab.StructOf(it)
-	if !ok || sv.Type().Name() == "Link" || c16IsCollectionType(sv.Type()) {
+	if !ok || sv.Type().Name() == "Link" || (c16IsCollectionType(sv.Type()) && !collectionsToo) {
 		return it
 	}
 	if id := sv.FieldByName("ID").String(); id != "" {
@@ -65,7 +71,7 @@ func c16FlatList(l ap.ItemCollection) (full, dedup ap.ItemCollection) {
 	full, dedup = ap.ItemCollection{}, ap.ItemCollection{}
 	seen := map[string]bool{}
 	for _, it := range l {
-		f := c16FlatOne(it)
+		f := c16FlatAddressee(it)
 		full = append(full, f)
 		k := c16IdentKey(it)
 		if k != "" && seen[k] {
@@ -354,7 +360,7 @@ func TestC16(t *testing.T) {
 	r := ev.Open(t, "C16")
 	defer r.Close(t)
 	r.Rule("positions: every flattened position (actor, object, target, result, origin, instrument, replies, likes, shares, attributedTo) x 10 shapes (IRI, objects of several types with id in pointer and " +
-		"value form, id-less objects, links with and without id) through FlattenProperties and the typed helpers; lists: all lists of length <= 4 over {IRI a, object a, object b, id-less object, nil} in " +
+		"value form, id-less objects, links with and without id) through FlattenProperties and the typed helpers; lists: all lists of length <= 4 over {IRI a, object a, object b, id-less object, nil, a followers collection with members, an empty collection with id} in " +
 		"every addressee property and in attributedTo; random: random values with decoys at positions that must not be flattened. Oracle: deep copy with exactly the embedded non-collection objects that " +
 		"have an id replaced by IRI(id) (repeated mentions in lists may or may not be dropped), every other property bit-identical, no IRI in the result that was not in the original, flatten twice == once. " +
 		"non-trivial = at least one embedded object with id in a flattened position; distinct by entry point + canonical dump")
@@ -427,6 +433,11 @@ func TestC16(t *testing.T) {
 				return &ap.Object{ID: "https://example.com/objects/b", Type: ap.NoteType}
 			case 3:
 				return &ap.Object{Type: ap.NoteType, Name: ap.DefaultNaturalLanguageValue("anonymous")}
+			case 5:
+				return &ap.OrderedCollection{ID: "https://example.com/actors/a/followers", Type: ap.OrderedCollectionType, TotalItems: 2,
+					OrderedItems: ap.ItemCollection{ap.IRI("https://example.com/actors/x"), &ap.Actor{ID: "https://example.com/actors/y", Type: ap.PersonType}}}
+			case 6:
+				return &ap.Collection{ID: "https://example.com/groups/g/members", Type: ap.CollectionType}
 			}
 			return nil
 		}
@@ -439,7 +450,7 @@ func TestC16(t *testing.T) {
 			if len(cur) == 4 {
 				return
 			}
-			for k := 0; k < 5; k++ {
+			for k := 0; k < 7; k++ {
 				build(append(cur, k))
 			}
 		}
@@ -449,6 +460,18 @@ func TestC16(t *testing.T) {
 			for _, tg := range []target{targets[0], targets[4]} {
 				for _, cb := range combos {
 					total++
+					if fn == "AttributedTo" {
+						skip := false
+						for _, k := range cb {
+							if k >= 5 {
+								skip = true // collections in attributedTo: the statement speaks of non-collection objects there
+							}
+						}
+						if skip {
+							total--
+							continue
+						}
+					}
 					cell := fmt.Sprintf("FlattenProperties %s.%s %v", tg.gt, fn, cb)
 					if !r.WantCell(cell) {
 						continue
